@@ -138,3 +138,43 @@ Qed.
 
 Lemma be_paths_off : fast_paths BE = false /\ forall a b c, batch_pred BE a b c = false.
 Proof. split; [reflexivity|intros; reflexivity]. Qed.
+
+(* ---------- C03 / C06: Decode<Msg> ---------- *)
+From BP Require Import CDecProofs.
+
+Lemma c_decode_le t v : c_schema t -> has_ty (norm t) v = true ->
+  c_decode_ty LE LE t (wire t v) = COk (store LE (norm t) v).
+Proof. intros (Hm & Hw & Hc) Ht. exact (c_decode_wire LE LE t v eq_refl Hm Hw Hc Ht). Qed.
+
+Lemma c_decode_be t v : c_schema t -> has_ty (norm t) v = true ->
+  c_decode_ty BE BE t (wire t v) = COk (store BE (norm t) v).
+Proof. intros (Hm & Hw & Hc) Ht. exact (c_decode_wire BE BE t v eq_refl Hm Hw Hc Ht). Qed.
+
+(* a C peer decodes what a Python peer encoded *)
+Lemma c_decode_of_py_encode t v : c_schema t -> has_ty (norm t) v = true ->
+  exists bs, py_encode t v = Ok bs /\ c_decode_ty LE LE t bs = COk (store LE (norm t) v).
+Proof.
+  intros Hs Ht. exists (wire t v). split.
+  - destruct Hs as (Hm & Hw & _). apply py_encode_is_wire; assumption.
+  - apply c_decode_le; assumption.
+Qed.
+
+(* round trip inside C *)
+Lemma c_roundtrip B E t v : B = E -> c_schema t -> has_ty (norm t) v = true ->
+  exists bs, c_encode_ty B E t (store E (norm t) v) = COk bs /\
+             c_decode_ty B E t bs = COk (store E (norm t) v).
+Proof.
+  intros HBE Hs Ht. exists (wire t v). split; [apply c_encode_is_wire; assumption|].
+  destruct Hs as (Hm & Hw & Hc). apply c_decode_wire; assumption.
+Qed.
+
+(* no out-of-bounds access while decoding a buffer produced by the same schema: the stream
+   buffer is exactly BYTES_LENGTH bytes, every field object exactly sizeof bytes *)
+Lemma c_no_oob_decode B E t v : B = E -> c_schema t -> has_ty (norm t) v = true ->
+  Z.of_nat (length (wire t v)) = nbytes t /\
+  exists o, c_decode_ty B E t (wire t v) = COk o.
+Proof.
+  intros HBE (Hm & Hw & Hc) Ht. split.
+  - rewrite (wire_length t v Hw Ht). reflexivity.
+  - exists (store E (norm t) v). apply c_decode_wire; assumption.
+Qed.
